@@ -447,6 +447,7 @@ type family struct {
 
 var familyDefs = []family{
 	// small families first: under a time cap the large ones are the ones cut short
+	{"F7-shared-nodes", []int{0, 2}, []string{"st(X,0,2)", "st(X,1,2)", "st(X,0,1)", "fin(false)", "fork", "commit(false)"}},
 	{"F5-copy", []int{0}, []string{"add1(X)", "logrefund", "logB", "snap", "revN", "fork", "copy"}},
 	{"F6-values", []int{0, 2}, []string{"st(X,1,127)", "st(X,1,128)", "st(X,1,256)", "st(X,1,full)", "st(X,1,2)", "st(X,0,0)", "fin(true)", "commit(false)", "copy", "reopen-disk(true)"}},
 	{"F4-two", []int{0}, []string{"add1(A1)", "add1(F)", "st(A1,1,2)", "st(F,0,2)", "suicide(A1)", "suicide(F)", "snap", "revN", "fin(true)", "reopen-disk(true)"}},
@@ -594,6 +595,12 @@ func execute(seq []op) (out *outcome, f *fail) {
 	for i, a := range w.asides {
 		if field, msg := a.was.diff(takeDump(a.st), true); field != "" {
 			return nil, &fail{"aside-changed", field, fmt.Sprintf("%s (#%d) no longer reads back what it read when it was set aside: %s", a.what, i, msg)}
+		}
+		// ... and its tries still hold that content (a copy shares trie nodes with its original)
+		r := a.st.IntermediateRoot(false)
+		d := takeDump(a.st)
+		if want := refStateRoot(d); r != want {
+			return nil, &fail{"aside-changed", "root", fmt.Sprintf("%s (#%d): IntermediateRoot(false) is %x, the specification root of the content it reads back is %x", a.what, i, r[:4], want[:4])}
 		}
 	}
 	return out, nil
@@ -922,7 +929,7 @@ func TestCheck(t *testing.T) {
 			if run.Quick() && (strings.HasPrefix(fam.name, "F2") || fam.name == "F6-values") && os.Getenv("VERIF_C09_DEPTH") == "" {
 				fdepth = depth - 1 // quick: the two families without snapshots (no ill-formed sequences to skip) one level shallower
 			}
-			if fam.name == "F5-copy" && os.Getenv("VERIF_C09_DEPTH") == "" {
+			if (fam.name == "F5-copy" || fam.name == "F7-shared-nodes") && os.Getenv("VERIF_C09_DEPTH") == "" {
 				fdepth = depth + 1 // small alphabet; the aliasing patterns between a copy and its original need 6 steps
 			}
 			run.Set("depth_"+fam.name, fdepth)
